@@ -170,7 +170,9 @@ class CFG:
         seen = set()
         stack = []
         for s in srcs:
-            if include_src and s not in avoid:
+            if s in avoid:
+                continue  # a start that is itself avoided is not a way through
+            if include_src:
                 seen.add(s)
             stack.append(s)
         visited_src = set()
